@@ -111,6 +111,12 @@ ASSUMPTIONS = [
     'when an owned filter/destination is referenced by a subscription the manager does not own, '
     'remove_server/remove_all_servers/exit may fail with CIMError after deleting any subset of the '
     'owned instances',
+    'a subscription created through manager X with owned=True on a filter/destination owned by '
+    'manager Y is X\'s (statement: "owns exactly what it created", "managers with different IDs never '
+    'see or delete each other\'s instances"); the documented discovery rule of add_server ("a '
+    'subscription that references an owned filter or destination is owned as well") makes Y claim it '
+    'after a restart - the check follows the statement and reports that; '
+    'CROSS_MANAGER_SUBSCRIPTIONS = False removes these events',
     'where both "Name already exists" and "owned destination with the same URL and PersistenceType '
     'exists" apply, add_destination may raise CIM_ERR_ALREADY_EXISTS or return the existing one',
     'ids the manager constructor rejects (":" in the id, None, non-string) are trivial cases; '
@@ -437,7 +443,8 @@ def canon(w):
                 rows.append((k,))
         rows.sort()
         stores.append(tuple(rows))
-    return (w.broken, tuple(stores), tuple(_mgr_canon(w, m) for m in w.mgrs), w.model.canon())
+    gone_used = any('gone' in LEVELS[lv]['rm'] for lv in w.levels)
+    return (w.broken, tuple(stores), tuple(_mgr_canon(w, m) for m in w.mgrs), w.model.canon(gone_used))
 
 
 # ------------------------------------------------------------------------------------------
@@ -504,7 +511,7 @@ def _manager_events(w, mi, s):
         if lv['rm_lists'] and op != 'rm_filter' and len(ks) > 1:
             evs.append([op, mi, s, ks])
         if 'gone' in lv['rm']:
-            for k in w.model.gone[s]:
+            for k in sorted(w.model.gone[s]):
                 if k[0] == op[3].upper() and k not in w.model.inst[s]:
                     evs.append([op, mi, s, k])
     return evs
